@@ -125,6 +125,22 @@ package loader
 //@   sets validated(p) := true
 //@ func admitProcesses
 //@   requires validated-before-admission: validated(p)
+// C13 / C16: the configuration-completing steps run before the templates are rendered - rendering snapshots the
+// process definition (OriginalConfig) that later scale-ups build replicas from, so what is added afterwards is
+// missing from replicas created at run time.
+//@ ghost ran(int, *types.Project) bool
+//@ func apply
+//@   flag trusted
+//@   ensures steps-ran: forall i int {old(m[i])} :: 0 <= i && i < len(m) ==> ran(fnof(old(m[i])), p)
+//@   ensures ran-kept: forall t int, q *types.Project {ran(t, q)} :: old(ran(t, q)) ==> ran(t, q)
+//@   assigns everything
+//@ func applyWithErr
+//@   flag trusted
+//@   requires complete-before-render: forall i int {m[i]} :: 0 <= i && i < len(m) && fnof(m[i]) == fntag("loader.renderTemplates") ==>
+//@        ran(fntag("loader.assignDefaultProcessValues"), p) && ran(fntag("loader.cloneReplicas"), p) && ran(fntag("loader.copyWorkingDirToProbes"), p)
+//@   ensures steps-ran: result == nil ==> (forall i int {old(m[i])} :: 0 <= i && i < len(m) ==> ran(fnof(old(m[i])), p))
+//@   ensures ran-kept: forall t int, q *types.Project {ran(t, q)} :: old(ran(t, q)) ==> ran(t, q)
+//@   assigns everything
 //@ func Load
 //@   requires opts != nil && len(opts.projects) == 0
 //@   loop 1 invariant opts != nil && idx >= -1 && len(opts.FileNames) == len(opts.projects) + len(fileNames) - (idx + 1) && len(opts.projects) >= idx + 1 && len(fileNames) >= 1 && idx < len(fileNames)
@@ -132,3 +148,14 @@ package loader
 //@   requires opts != nil
 //@   ensures found: result == nil ==> len(opts.FileNames) >= 1
 //@   ensures projects-untouched: opts.projects == old(opts.projects)
+
+// C16: every process of the project - whatever its markings (disabled, replica of another one) - gets its templates
+// rendered; none is added or dropped by the rendering step.
+//@ func renderTemplates
+//@   requires p != nil
+//@   ensures every-process-rendered: result == nil ==> (forall n string :: n in p.Processes ==> renderedCfg(p.Processes[n].ReplicaName))
+//@   ensures keys: forall n string :: n in p.Processes <==> old(n in p.Processes)
+//@   loop 1 invariant p.Processes == old(p.Processes)
+//@   loop 1 invariant forall n string :: n in p.Processes <==> old(n in p.Processes)
+//@   loop 1 invariant forall n string :: seen(n) && n in p.Processes ==> renderedCfg(p.Processes[n].ReplicaName)
+//@   loop 1 invariant monotone("renderedCfg")
